@@ -14,7 +14,11 @@ LEVEL_TEXT = ("a TLA+ contract of an aligned heap (an allocation answer is null,
               "call of the real alignedMalloc / alignedFree (returned pointers, pattern read-back, leak detector, resident-set growth) for "
               "both back ends; AlignedVector is a TLA+ sequence model (every way elements get copied: push_back of lvalue / rvalue / own "
               "element, insert, resize, assign, reallocation, copy construction and assignment of whole vectors, swap) whose state-graph "
-              "histories are replayed on the real vectors for eight element types - sizes 1/4/8/12/64, a self-recursive node type and "
+              "histories are replayed on the real vectors for twenty element types - sizes 1/3/4/8/12/32/64, element types given by (sizeof, alignof) "
+              "alone: 63/65 and 127/128/129 around the alignment and its double, 72/96/160/200 above it and not powers of two, alignas(128) > 64 "
+              "(ESize / EAlign are parameters of the specification; max_size(), the requests that must succeed and the usable bytes are formulas "
+              "in them, with 64-bit limb arithmetic TLC checks against integers), the allocator rebound to OTHER types (rebind_alloc<U>, U of "
+              "1/24/72/96/200/128-aligned bytes) under the same laws and under the alignedMalloc contract, a self-recursive node type and "
               "std::vector<Any> (list-initialisation differs from copy), a lifetime-instrumented type (exactly-once construction / destruction "
               "accounting) - comparing contents, sizes, data() mod 64, the accounting and length_error of allocate beyond max_size(), and "
               "whose recorded long random executions are validated by TLC")
@@ -31,7 +35,12 @@ LEVEL_NOTE = ("bounded: model address space 1..8 (thorough 1..12), sizes 0..3 (0
               "there).  Allocator internals are observed, not modelled.  'Released' is observed as: no unreachable freed block (LSan, ASan "
               "build) and bounded resident-set growth over alloc/free cycles (plain builds).  Vector histories include lengths 127..4097 and 65535..65537 around each boundary, aliasing arguments "
               "(v.push_back(v[0]), insert(begin(), back()), resize(n, v[0])), self-assignment, move assignment, throwing element copies (strong "
-              "guarantee calls only), the allocate(n, hint) overload and a rebound allocator.  Not covered: alignments above 4096, move-only "
+              "guarantee calls only), the allocate(n, hint) overload, a rebound allocator, the allocator type std::vector itself allocates "
+              "through (allocator_traits::rebind_alloc<T>) and the allocator rebound to six other types (rebind_to; exp.ty / exp.rty: sizeof, alignof, "
+              "max_size(), n, bytes written).  Element types e63 e65 e72 e96 e127 e128 e129 e160 e200 a128 (quick: two on the ASan build, four each on "
+              "TBB / _mm_malloc; a128 never on the UBSan build: 64-aligned storage is what the statement promises, not alignof(T) = 128); heap world: "
+              "element sizes 63..200 through the typed overload, aligned_allocator<T> and rebind_alloc<T>, whose requests below 16 MiB must be answered.  "
+              "Not covered: node-based containers themselves (node addresses are not observable as data()), alignments above 4096, move-only "
               "element types (aligned_allocator::construct copies, they do not compile), the typed "
               "alignedMalloc<T>(n) overload for element counts whose byte size overflows, allocators rebound to another alignment.  "
               "Trusted: TLC, the driver's pattern fill / byte comparison and pointer-to-limb conversion, LSan, /proc/self/statm, g++/libstdc++")
@@ -47,7 +56,11 @@ ALIGNS = [1, 2, 4, 8, 16, 32, 64, 128, 256, 512, 1024, 2048, 4096]
 HUGE = [(1 << 64) - 1, (1 << 64) - 4096, 1 << 63, (1 << 62) + 1, 1 << 48]
 # further boundaries of size classes, counters and casts (allocator bins, page size, 16-bit), each with every alignment once
 SIZES_MORE = [2, 3, 9, 15, 16, 17, 24, 127, 128, 129, 255, 256, 257, 511, 512, 513, 1023, 1024, 1025, 8128, 8129,
-              65535, 65536, 65537, 131071, 131072, 131073, (1 << 20) - 1, (1 << 20) + 1]
+              65535, 65536, 65537, 131071, 131072, 131073, (1 << 20) - 1, (1 << 20) + 1,
+              72, 96, 160, 200, 7200]      # multiples of the element sizes above 64 that are not powers of two
+# element sizes of the allocator routes of the heap world (= C14_HEAP_SIZES of the driver): typed alignedMalloc<T>,
+# aligned_allocator<T>::allocate, and the allocator REBOUND to T from another type
+ES_LIST = (1, 3, 4, 12, 64, 63, 65, 72, 96, 127, 129, 160, 200)
 # requests around 2^31 and 2^32 bytes: the block is touched at both 4 KiB edges only; what decides is that the whole
 # requested extent is disjoint from the blocks allocated while it is held
 BIG = [(1 << 31) - 1, 1 << 31, (1 << 31) + 1, (1 << 32) - 1, 1 << 32, (1 << 32) + 1]
@@ -57,6 +70,22 @@ BURSTS_MORE = [(65537, 0, 128), (65536, 65, 128), (255, 4097, 4096), (1025, 3, 2
 # max_size(); life: the type reports its construction / destruction accounting)
 VARIANTS = {"c1": "byte", "i4": "plain", "f8": "plain", "b3": "plain", "s12": "plain", "a32": "plain", "s64": "plain", "nest": "plain",
             "vany": "plain", "trk": "life"}
+# (sizeof, alignof) of the element types: the instance of the specification (ESize, EAlign) that describes them
+ETYPE = {"c1": (1, 1), "i4": (4, 4), "f8": (8, 8), "b3": (3, 1), "s12": (12, 4), "a32": (32, 32), "s64": (64, 4), "nest": (32, 8),
+         "vany": (24, 8), "trk": (4, 4)}
+# element types given by size and alignment only (= C14_BLOB_TYPES of the driver; one line per type): sizes just around the
+# 64-byte alignment and its double, sizes above it that are not powers of two, an over-aligned type (alignof 128 > 64)
+BLOBS = {"e63": (63, 1), "e65": (65, 1), "e72": (72, 8), "e96": (96, 32), "e127": (127, 1), "e128": (128, 8), "e129": (129, 1),
+         "e160": (160, 32), "e200": (200, 8), "a128": (128, 128)}
+for _k, _v in BLOBS.items():
+    VARIANTS[_k] = "plain"
+    ETYPE[_k] = _v
+# alignof(T) = 128 > 64: the blocks are 64-aligned as the statement promises, every second element is then not aligned for
+# its own type - UBSan stops at the first such element, so this type only runs on the builds without sanitizer
+NO_SANITIZER = {"a128"}
+# the types an allocator is rebound to in recorded executions (= RebindTypes of AlignedVec.tla)
+REBIND_TO = [(1, 1), (24, 8), (72, 8), (96, 32), (200, 8), (128, 128)]
+GEN_ETYPE = (8, 8)                  # ESize / EAlign of AlignedVecGen.cfg
 GEN_CFG = "AlignedVecGen.cfg"       # one generation instance (wide element type, lifetime accounting); see histories_for()
 TRACE_CFG = {"plain": "AlignedVecTrace.cfg", "byte": "AlignedVecTrace_byte.cfg", "life": "AlignedVecTrace_life.cfg"}
 VEC_MUT = {"PushBack", "PushBackRv", "PushBackOwn", "PopBack", "Resize", "ResizeVal", "ResizeValOwn", "Assign", "AssignFrom", "CopyCtor",
@@ -125,7 +154,7 @@ def free(h, t=0):
 
 
 def es_for(size, rnd, also_none=True):
-    c = [e for e in (1, 3, 4, 12, 64) if size and size % e == 0]
+    c = [e for e in ES_LIST if size and size % e == 0]
     return rnd.choice(c + ([0] if also_none else [])) if c else 0
 
 
@@ -135,7 +164,7 @@ def light_execution(size, rnd):
     acts = []
     for k, al in enumerate(ALIGNS):
         es = es_for(size, rnd)
-        via = "alloc" if es and al == 64 else None
+        via = rnd.choice(["alloc", "rebind"]) if es and al == 64 else None
         acts.append(alloc(k + 1, size, al, es=es if (via or es != 1) else 0, via=via, t=k % 3))
     acts.append(act("CheckAll"))
     for k in range(0, len(ALIGNS), 2):
@@ -167,6 +196,25 @@ def big_execution(rnd, sizes):
     return acts
 
 
+def rebind_execution(rnd):
+    """every element size of the allocator routes: blocks of 1, 2, 57 and 100 elements through the allocator rebound to that
+    type (and one through the plain allocator), all held at once per size, checked, freed by another thread"""
+    acts = []
+    for k, es in enumerate(ES_LIST):
+        ns = [1, 2, 57, 100]
+        for j, n in enumerate(ns):
+            acts.append(alloc(j + 1, n * es, 64, es=es, via="rebind", t=(k + j) % 3))
+        acts.append(alloc(5, 3 * es, 64, es=es, via="alloc"))
+        acts.append(alloc(6, 5 * es, 128, es=es))             # the typed overload alignedMalloc<T>(5, 128)
+        acts.append(act("CheckAll"))
+        acts += [free(2, t=(k + 1) % 3), free(4)]
+        acts.append(alloc(2, 64 * es, 64, es=es, via="rebind"))
+        acts.append(act("CheckAll"))
+        acts += [free(j + 1, t=j % 3) for j in range(6) if j != 3]
+    acts.append(act("LeakCheck"))
+    return acts
+
+
 def burst_execution(bursts):
     acts = [alloc(1, 4097, 64), alloc(2, 65, 16)]
     for k, (n, size, al) in enumerate(bursts):
@@ -183,7 +231,7 @@ def act(a, **arg):
 def grid_execution(size, rnd):
     """every alignment with this size, two blocks each; free half, re-allocate with other alignments, free all"""
     acts = []
-    es_of = [e for e in (4, 12, 64) if size and size % e == 0]
+    es_of = [e for e in ES_LIST[2:] if size and size % e == 0]
     for k, al in enumerate(ALIGNS):
         acts.append(alloc(2 * k + 1, size, al))
         acts.append(alloc(2 * k + 2, size, al, es=rnd.choice(es_of) if es_of else 0))
@@ -229,9 +277,10 @@ def random_execution(rnd, n, nslots=20):
                 if empty:
                     h = rnd.choice(empty)
             size = rnd.choice(SIZES + SIZES_MORE) if rnd.random() < 0.6 else rnd.choice(SIZES)
-            es_of = [e for e in (0, 0, 3, 4, 12, 64) if e == 0 or (size and size % e == 0)]
+            es_of = [e for e in (0, 0) + ES_LIST[1:] if e == 0 or (size and size % e == 0)]
             es = rnd.choice(es_of)
-            acts.append(alloc(h, size, rnd.choice(ALIGNS), es=es, via="alloc" if es and rnd.random() < 0.4 else None, t=rnd.choice([0, 0, 1, 2])))
+            acts.append(alloc(h, size, rnd.choice(ALIGNS), es=es, via=rnd.choice(["alloc", "rebind"]) if es and rnd.random() < 0.4 else None,
+                              t=rnd.choice([0, 0, 1, 2])))
             used.add(h)
         elif x < 0.76:
             if h not in used and used and rnd.random() < 0.9:
@@ -284,7 +333,12 @@ def record(exe, executions, tag, meta, env):
     return execs, stderr, wall
 
 
-def why(spec_dir, module, cfg, events, tag):
+def type_env(var):
+    """the instance of the vector specification for an element type: ESize / EAlign of AlignedVecTrace"""
+    return {"C14_ESIZE": str(ETYPE[var][0]), "C14_EALIGN": str(ETYPE[var][1])}
+
+
+def why(spec_dir, module, cfg, events, tag, env=None):
     """re-validate one rejected execution on its own and fetch the clause TLC names (this is also the
     re-check of the artefact before it is reported)"""
     d = os.path.join(tla.WORK, "traces", tag)
@@ -294,7 +348,7 @@ def why(spec_dir, module, cfg, events, tag):
         for ev in events:
             f.write(json.dumps(ev, separators=(",", ":")) + "\n")
     r = tla.run_tlc(os.path.join(spec_dir, module + ".tla"), os.path.join(spec_dir, cfg), workers=1, timeout=900,
-                    env={"TRACE": path}, tag="why-" + tag)
+                    env=dict(env or {}, TRACE=path), tag="why-" + tag)
     os.remove(path)
     rej = re.search(r'TRACE-REJECTED-AT-LINE",\s*(\d+)', r.out)
     if r.ok or not rej:
@@ -303,14 +357,15 @@ def why(spec_dir, module, cfg, events, tag):
     return int(rej.group(1)) - 1, ((m.group(1), m.group(2)) if m else ("no-such-action", None))
 
 
-def validate_start(pool, spec_dir, module, cfg, executions, execs, tag, sig_prefix, meta, cls_of):
+def validate_start(pool, spec_dir, module, cfg, executions, execs, tag, sig_prefix, meta, cls_of, env=None):
     """TLC validates the recorded executions (in a worker thread: TLC is an external process); finish with validate_finish"""
-    fut = pool.submit(trace.validate, os.path.join(spec_dir, module + ".tla"), os.path.join(spec_dir, cfg), execs, tag, workers=1, timeout=1800)
-    return (fut, spec_dir, module, cfg, executions, execs, tag, sig_prefix, meta, cls_of)
+    fut = pool.submit(trace.validate, os.path.join(spec_dir, module + ".tla"), os.path.join(spec_dir, cfg), execs, tag, workers=1, timeout=1800,
+                      env=env)
+    return (fut, spec_dir, module, cfg, executions, execs, tag, sig_prefix, meta, cls_of, env)
 
 
 def validate_finish(chk, job):
-    fut, spec_dir, module, cfg, executions, execs, tag, sig_prefix, meta, cls_of = job
+    fut, spec_dir, module, cfg, executions, execs, tag, sig_prefix, meta, cls_of, env = job
     acc, rej, stats = fut.result()
     chk.cov["traces_validated_against_impl"] += acc + len(rej)
     chk.cov.setdefault("trace_events_validated", 0)
@@ -319,7 +374,7 @@ def validate_finish(chk, job):
             % (tag, acc, len(rej), stats["events"], stats["tlc_runs"], stats["wall"]))
     for rj in rej:
         evs = execs[rj["exec"]]
-        line, reason = why(spec_dir, module, cfg, evs, tag)
+        line, reason = why(spec_dir, module, cfg, evs, tag, env)
         if line is None:
             raise tla.InfraError("rejection of execution %d of %s was not reproduced on re-validation" % (rj["exec"], tag))
         ev = evs[line]
@@ -370,7 +425,8 @@ def heap_cls(ev):
     arg = ev.get("arg") or {}
     a = ev.get("during") or ev.get("a")
     if a == "Alloc" and "size" in arg:
-        how = ",aligned_allocator" if arg.get("via") else ",typed" if arg.get("es") else ""
+        how = (",rebind_alloc(es=%s)" % arg.get("es") if arg.get("via") == "rebind" else ",aligned_allocator" if arg.get("via")
+               else ",typed" if arg.get("es") else "")
         return "size=%s,align=%s%s" % (size_class(arg["size"]), arg.get("align"), how)
     if a == "Burst" and "size" in arg:
         return "n=%s,size=%s,align=%s" % (arg.get("n"), size_class(arg["size"]), arg.get("align"))
@@ -385,7 +441,8 @@ def heap_stats(execs):
     """coverage counters (never a verdict): non-null answers per size, address reuse after free, detector availability"""
     st = {"alloc": 0, "nonnull": 0, "null": 0, "free": 0, "check": 0, "reuse_of_freed_base": 0, "leakcheck_active": 0,
           "nonnull_by_size": {}, "churn": 0, "crash": 0, "bursts": 0, "burst_answers": 0, "largest_burst": 0, "through_allocator": 0,
-          "typed_overload": 0, "freed_by_other_thread": 0, "big_nonnull": 0}
+          "typed_overload": 0, "freed_by_other_thread": 0, "big_nonnull": 0, "through_rebound_allocator": 0, "nonnull_rebound_by_es": {},
+          "nonnull_typed_by_es": {}}
     for evs in execs:
         freed = set()
         owner = {}
@@ -401,6 +458,11 @@ def heap_stats(execs):
                     st["nonnull"] += 1
                     owner[arg["h"]] = arg.get("t", 0)
                     st["through_allocator"] += 1 if arg.get("via") else 0
+                    if o.get("route") == "rebind":
+                        st["through_rebound_allocator"] += 1
+                        st["nonnull_rebound_by_es"][str(arg["es"])] = st["nonnull_rebound_by_es"].get(str(arg["es"]), 0) + 1
+                    elif arg.get("es") and not arg.get("via"):
+                        st["nonnull_typed_by_es"][str(arg["es"])] = st["nonnull_typed_by_es"].get(str(arg["es"]), 0) + 1
                     st["typed_overload"] += 1 if (arg.get("es") and not arg.get("via")) else 0
                     st["big_nonnull"] += 1 if unlimbs(arg["size"]) >= (1 << 31) - 1 and unlimbs(arg["size"]) <= (1 << 33) else 0
                     c = str(unlimbs(ev["arg"]["size"]))
@@ -462,6 +524,9 @@ def model_checks_start(pool, quick):
         ("neg", SPEC_MEM, "HeapMC", "HeapMC_reuse.cfg", "NoReuseStep", "positive control: freed addresses can be handed out again"),
         ("mc", SPEC_CON, "AllocGuardMC", "AllocGuardMC.cfg", "8-bit size_t: n > max_size() <=> n*sizeof(T) overflows; symbolic request classes agree with arithmetic"),
         ("neg", SPEC_CON, "AllocGuardMC", "AllocGuardMC_neg_unguarded.cfg", "assumption", "allocate without the max_size() guard serves fewer bytes than requested"),
+        ("mc", SPEC_CON, "AllocGuardMC", "AllocGuardMC_wide.cfg", "12-bit size_t, element sizes 1..200 (63/64/65, 72, 96, 127/128/129, 160, 200): the guard, the symbolic "
+         "request classes, and the limb formulas for max_size() / the request (used at base 2^16 for the real size_t) agree with integer arithmetic"),
+        ("neg", SPEC_CON, "AllocGuardMC", "AllocGuardMC_neg_unguarded_wide.cfg", "assumption", "the same for element sizes up to 200"),
         ("mc", SPEC_CON, "AlignedVec", "AlignedVecMC.cfg" if quick else "AlignedVecMC_thorough.cfg",
          "sequence semantics: prefix kept by append/truncate/storage operations, other vector untouched, swap, insert shift, length_error iff beyond max_size()"),
     ]
@@ -494,6 +559,7 @@ def heap_part(chk, pool, quick, rnd, exes):
         executions += [light_execution(s, rnd) for s in SIZES_MORE]
         executions += [big_execution(rnd, BIG if not quick else [BIG[1], BIG[4], BIG[5]])]
         executions += [burst_execution(BURSTS_QUICK if quick else BURSTS_QUICK + BURSTS_MORE)]
+        executions += [rebind_execution(rnd)]
         executions += [random_execution(rnd, 300) for _ in range(n_rand)]
         if not san:
             executions.append(churn_execution())
@@ -523,6 +589,12 @@ def heap_part(chk, pool, quick, rnd, exes):
             if st["largest_burst"] < 65536 or not st["through_allocator"] or not st["typed_overload"] or not st["freed_by_other_thread"]:
                 GUARDS.append("vacuity guard: alignedMalloc[%s]: burst of 65536 / allocator route / typed overload / cross-thread free "
                                      "not exercised: %s" % (label, {k: st[k] for k in ("largest_burst", "through_allocator", "typed_overload", "freed_by_other_thread")}))
+            norebind = [str(e) for e in ES_LIST if not st["nonnull_rebound_by_es"].get(str(e))]
+            if norebind:
+                GUARDS.append("vacuity guard: alignedMalloc[%s]: the allocator rebound to element sizes %s never returned memory" % (label, norebind))
+            notyped = [str(e) for e in ES_LIST[5:] if not st["nonnull_typed_by_es"].get(str(e))]
+            if notyped:
+                GUARDS.append("vacuity guard: alignedMalloc[%s]: the typed overload never returned memory for element sizes %s" % (label, notyped))
             if not st["big_nonnull"]:
                 chk.note("alignedMalloc[%s] answered null to every request of 2..4 GiB on this machine: the 2^31 / 2^32 boundaries are not exercised" % label)
         if label == "TBB":
@@ -566,7 +638,14 @@ def rand_vec_actions(rnd, n, byte_sized, fuses=False):
             else: d = rnd.choice([-1, 0] if byte_sized else [1, 2, 3])
             if rel == "ovf" and d <= 0:
                 rel = "max"
-            a = act("Allocate", how=rnd.choice(["plain", "hint", "rebind"]), rel=rel, d=d)
+            how = rnd.choice(["plain", "hint", "rebind", "traits", "rebind_to", "rebind_to"])
+            if how == "rebind_to":
+                to = rnd.choice(REBIND_TO)
+                if to[0] == 1 or byte_sized:                     # the request is written relative to max_size() of the TARGET type
+                    rel, d = rnd.choice([("abs", 3), ("abs", 0), ("max", 0), ("max", -1)] if to[0] == 1 else [("abs", 2), ("max", 1), ("ovf", 2), ("max", 0)])
+                a = act("Allocate", how=how, to={"size": to[0], "align": to[1]}, rel=rel, d=d)
+            else:
+                a = act("Allocate", how=how, rel=rel, d=d)
         if fuses and a["a"] in STRONG_OPS and rnd.random() < 0.35:
             a["arg"]["fuse"] = rnd.choice([1, 1, 2, 3, 5, 17])       # the k-th element copy inside this call throws
         acts.append(a)
@@ -603,9 +682,23 @@ def boundary_vec_actions(rnd, bounds, fuses=False):
     return acts
 
 
+def rebind_vec_actions(byte_sized):
+    """the allocator of the vectors rebound to every other type of the specification, and the allocator type the vector itself
+    allocates through: requests that must succeed (1, 100, 1000 elements), max_size() itself and one element beyond it"""
+    acts = [act("PushBack", i=1, x=3)]
+    for to in REBIND_TO:
+        for rel, d in [("abs", 1), ("abs", 100), ("abs", 1000), ("max", 0)] + ([] if to[0] == 1 else [("max", 1), ("ovf", 1)]):
+            acts.append(act("Allocate", how="rebind_to", to={"size": to[0], "align": to[1]}, rel=rel, d=d))
+        acts.append(act("PushBackOwn", i=1))
+    for how in ("traits", "rebind", "hint", "plain"):
+        for rel, d in [("abs", 1), ("abs", 100), ("abs", 1000), ("max", 0)] + ([] if byte_sized else [("max", 1), ("ovf", 1)]):
+            acts.append(act("Allocate", how=how, rel=rel, d=d))
+    return acts
+
+
 def vec_stats(execs):
     st = {"steps": 0, "storage_moved": 0, "max_len": 0, "allocate_len_err": 0, "allocate_ok": 0, "allocate_bad_alloc": 0, "copy_threw": 0,
-          "fuse_armed": 0}
+          "fuse_armed": 0, "rebind_to_ok": {}, "rebind_to_len_err": 0, "traits_ok": 0, "type": None}
     for evs in execs:
         for ev in evs:
             o = ev.get("obs") or {}
@@ -616,6 +709,15 @@ def vec_stats(execs):
             st["fuse_armed"] += 1 if isinstance(ev.get("arg"), dict) and ev["arg"].get("fuse") else 0
             if ev["a"] == "Allocate":
                 r = o.get("ret")
+                how = ev["arg"].get("how")
+                if how == "rebind_to":
+                    k = "%d/%d" % (ev["arg"]["to"]["size"], ev["arg"]["to"]["align"])
+                    st["rebind_to_ok"][k] = st["rebind_to_ok"].get(k, 0) + (1 if r == "ok" else 0)
+                    st["rebind_to_len_err"] += 1 if r == "length_error" else 0
+                else:
+                    st["traits_ok"] += 1 if (how == "traits" and r == "ok") else 0
+                    if o.get("ty"):
+                        st["type"] = [o["ty"].get("size"), o["ty"].get("align")]
                 if r == "length_error": st["allocate_len_err"] += 1
                 elif r == "ok": st["allocate_ok"] += 1
                 elif r == "bad_alloc": st["allocate_bad_alloc"] += 1
@@ -623,22 +725,23 @@ def vec_stats(execs):
 
 
 def vec_gen_start(chk, pool, quick):
-    budget = 6000 if quick else 60000
+    budget = 9000 if quick else 60000
     return pool.submit(adtcheck.gen_histories, chk, SPEC_CON, "AlignedVec", GEN_CFG, budget, 6, walks=600 if quick else 6000, walk_len=40,
                        seed=chk.seed, mutators=VEC_MUT, tag="c14-vec-gen")
 
 
-def histories_for(hs, kind):
+def histories_for(hs, kind, same_type=False):
     """regrouping of the histories TLC generated for the widest instance: an element type of size 1 gets the histories all of
     whose steps the specification marked byte_ok; a type that cannot report the lifetime accounting is compared on the
     expected observables without the `life` record"""
-    if kind == "life":
-        return hs
+    """; exp.ty (sizeof / alignof / max_size() / request of the generation instance's own element type) is kept for the element
+    types that have that sizeof / alignof (same_type) - exp.rty, about the types an allocator is rebound to, is kept for all"""
+    drop = set(() if kind == "life" else ("life",)) | set(() if same_type else ("ty",))
     out = []
     for h in hs:
         if kind == "byte" and not all(st.get("byte_ok", True) for st in h):
             continue
-        out.append([dict(st, exp={k: v for k, v in st["exp"].items() if k != "life"}) for st in h])
+        out.append([dict(st, exp={k: v for k, v in st["exp"].items() if k not in drop}) for st in h])
     return out
 
 
@@ -646,17 +749,28 @@ def vec_part(chk, pool, quick, rnd, exes, gf):
     hs, info, ag = gf.result()
     chk.cov["generation_AlignedVec"] = info
     chk.count_actions(hs)
-    gens = {kind: histories_for(hs, kind) for kind in ("plain", "byte", "life")}
-    if not (0 < len(gens["byte"]) < len(gens["plain"])):
+    if info["all_histories_len"] < 2:
+        raise tla.InfraError("vacuity guard: the generation budget no longer covers all histories of length 2")
+    flavour = {var: (VARIANTS[var], ETYPE[var] == GEN_ETYPE) for var in VARIANTS}
+    gens = {fl: histories_for(hs, fl[0], fl[1]) for fl in sorted(set(flavour.values()))}
+    if not any(same for _, same in gens):
+        raise tla.InfraError("vacuity guard: no element type has the sizeof / alignof of the generation instance")
+    nreb = sum(1 for h in hs for st in h if st["a"] == "Allocate" and st["arg"].get("how") == "rebind_to" and "rty" in st["exp"])
+    if not nreb:
+        raise tla.InfraError("vacuity guard: no rebind_to step in the generated histories")
+    chk.cov["generated_rebind_to_steps"] = nreb
+    if not (0 < len(gens[("byte", False)]) < len(gens[("plain", False)])):
         raise tla.InfraError("vacuity guard: byte_ok did not select a proper, non-empty subset of the histories")
     chk.require_actions(VEC_ACTIONS)
-    chk.add_sample({"kind": "history", "object": "AlignedVector", "steps": gens["life"][len(gens["life"]) // 2]})
+    chk.add_sample({"kind": "history", "object": "AlignedVector", "steps": gens[("life", False)][len(gens[("life", False)]) // 2]})
     nexec = 6 if quick else 40
-    combos = [(lab, var) for lab in ("Internal+asan", "TBB", "Internal") for var in VARIANTS]
+    combos = [(lab, var) for lab in ("Internal+asan", "TBB", "Internal") for var in VARIANTS if not (var in NO_SANITIZER and "asan" in lab)]
     if quick:
         # what an element type adds is independent of the back end, what a back end adds is the alignment of its blocks:
         # every type on the instrumented build, the non-trivial ones and two sizes on TBB, two sizes on plain _mm_malloc
-        keep = {"Internal+asan": set(VARIANTS), "TBB": {"c1", "a32", "nest", "trk"}, "Internal": {"b3", "s64"}}
+        # the size / alignment-only types: sizes above 64 that are not powers of two on every back end, the sizes around 64 / 128 spread
+        keep = {"Internal+asan": (set(VARIANTS) - set(BLOBS)) | {"e65", "e72"},
+                "TBB": {"c1", "a32", "nest", "trk", "e96", "e127", "e129", "a128"}, "Internal": {"b3", "s64", "e63", "e128", "e160", "e200"}}
         combos = [c for c in combos if c[1] in keep[c[0]]]
     envs = {lab: env for lab, _, _, env in backends(chk)}
     moved_total = 0
@@ -666,7 +780,7 @@ def vec_part(chk, pool, quick, rnd, exes, gf):
         """external processes only: the driver follows the TLC histories and performs the random executions"""
         tag = "c14-vec-%s-%s" % (var, lab.replace("+", "-"))
         meta = {"world": "vec", "variant": var}
-        rr = adt.run_driver(exes[lab], gens[VARIANTS[var]], tag, isolate=500, meta=meta, env=envs[lab], timeout=3000,
+        rr = adt.run_driver(exes[lab], gens[flavour[var]], tag, isolate=500, meta=meta, env=envs[lab], timeout=3000,
                             extra_args=["--timeout-ms", DRIVER_TIMEOUT_MS])
         rec = record(exes[lab], executions, tag, meta, envs[lab])
         return rr, rec
@@ -678,10 +792,11 @@ def vec_part(chk, pool, quick, rnd, exes, gf):
         executions.append(boundary_vec_actions(rnd, LEN_BOUNDS if not quick else rnd.sample(LEN_BOUNDS[:12], 4) + [rnd.choice(LEN_BOUNDS[12:])], fuses=life))
         if var in ("c1", "i4") and lab == "Internal+asan" or (not quick and var in ("c1", "i4", "trk")):
             executions.append(boundary_vec_actions(rnd, LEN_BOUNDS_16 if not quick else [rnd.choice(LEN_BOUNDS_16)], fuses=life))
+        executions.append(rebind_vec_actions(VARIANTS[var] == "byte"))
         started.append((lab, var, executions, pool.submit(drive, lab, var, executions)))
     for lab, var, executions, fut in started:
         byte_sized = VARIANTS[var] == "byte"
-        hs = gens[VARIANTS[var]]
+        hs = gens[flavour[var]]
         prefix = "AlignedVector<%s>[%s]" % (var, lab)
         tag = "c14-vec-%s-%s" % (var, lab.replace("+", "-"))
         meta = {"world": "vec", "variant": var}
@@ -694,7 +809,7 @@ def vec_part(chk, pool, quick, rnd, exes, gf):
         moved_total += st["storage_moved"]
         chk.cov.setdefault("vector", {})[prefix] = st
         jobs.append(validate_start(pool, SPEC_CON, "AlignedVecTrace", TRACE_CFG[VARIANTS[var]],
-                                   executions, execs, tag, prefix, dict(meta, label=lab), vec_cls))
+                                   executions, execs, tag, prefix, dict(meta, label=lab), vec_cls, env=type_env(var)))
         chk.cov["evaluations"] += len(executions)
         beyond = sum(1 for e in executions for a in e if a["a"] == "Allocate" and a["arg"]["rel"] in ("max", "ovf") and a["arg"]["d"] > 0)
         if not byte_sized and not beyond:
@@ -702,6 +817,15 @@ def vec_part(chk, pool, quick, rnd, exes, gf):
         crashed = any(ev["a"] == "crash" for evs in execs for ev in evs)
         if VARIANTS[var] == "life" and not crashed and not st["copy_threw"]:
             GUARDS.append("vacuity guard: no element copy threw in the recorded executions of %s (%d fuses armed)" % (prefix, st["fuse_armed"]))
+        if not crashed:
+            noreb = [k for k in ("%d/%d" % t for t in REBIND_TO) if not st["rebind_to_ok"].get(k)]
+            if noreb or not st["traits_ok"] or not st["rebind_to_len_err"]:
+                GUARDS.append("vacuity guard: %s: allocator rebound to %s never returned memory / traits route %d / length_error of a rebound "
+                              "allocator %d" % (prefix, noreb, st["traits_ok"], st["rebind_to_len_err"]))
+            if st["type"] is None:
+                GUARDS.append("vacuity guard: %s: the driver never reported sizeof / alignof of its element type" % prefix)
+            elif st["type"] != list(ETYPE[var]):
+                raise tla.InfraError("the driver's element type %s has sizeof / alignof %s, the table says %s" % (var, st["type"], ETYPE[var]))
         if not crashed and st["max_len"] < 4095:
             GUARDS.append("vacuity guard: the vectors of %s never reached 4095 elements" % prefix)
     if not chk.violations and moved_total < 100:
@@ -761,5 +885,6 @@ def do_replay(chk, path):
         heap = dmeta.get("world") == "heap"
         with ThreadPoolExecutor(max_workers=1) as pool:
             validate_finish(chk, validate_start(pool, SPEC_MEM if heap else SPEC_CON, rep["module"], rep["cfg"], executions, execs, "c14-replay",
-                                                rep["sig_prefix"], meta, heap_cls if heap else vec_cls))
+                                                rep["sig_prefix"], meta, heap_cls if heap else vec_cls,
+                                                env=None if heap else type_env(dmeta.get("variant", "i4"))))
     chk.cov["evaluations"] = max(chk.cov["evaluations"], 1)
